@@ -111,7 +111,7 @@ RE_STATES = re.compile(r"(\d+) states generated, (\d+) distinct states found")
 
 
 def write_cfg(path, spec, constants, invariants=(), properties=(), view=None, action_constraint=None,
-              constraint=None, extra=""):
+              constraint=None, extra="", deadlock=False):
     with open(path, "w") as f:
         f.write("SPECIFICATION %s\n" % spec)
         if constants:
@@ -131,7 +131,7 @@ def write_cfg(path, spec, constants, invariants=(), properties=(), view=None, ac
             f.write("ACTION_CONSTRAINT %s\n" % action_constraint)
         if constraint:
             f.write("CONSTRAINT %s\n" % constraint)
-        f.write("CHECK_DEADLOCK FALSE\n")
+        f.write("CHECK_DEADLOCK %s\n" % ("TRUE" if deadlock else "FALSE"))
         f.write(extra)
 
 
@@ -141,7 +141,7 @@ def tla_set(xs):
 
 def run_design(ctx, module, cfgname, constants, invariants=(), properties=(), view=None,
                action_constraint=None, constraint=None, workers=None, timeout=1800, heap="8g",
-               on_line=None, tag="SCN", extra_args=(), simulate=False, spec="Spec"):
+               on_line=None, tag="SCN", extra_args=(), simulate=False, spec="Spec", deadlock=False):
     """Run an exhaustive TLC design model in a scratch copy of spec/.  Lines printed as
     <<"TAG", "json">> are decoded and passed to on_line.  Returns (generated, distinct)."""
     d = ctx.sub("design-" + cfgname)
@@ -149,7 +149,7 @@ def run_design(ctx, module, cfgname, constants, invariants=(), properties=(), vi
         if fn.endswith(".tla"):
             shutil.copyfile(os.path.join(SPEC, fn), os.path.join(d, fn))
     cfg = os.path.join(d, cfgname + ".cfg")
-    write_cfg(cfg, spec, constants, invariants, properties, view, action_constraint, constraint)
+    write_cfg(cfg, spec, constants, invariants, properties, view, action_constraint, constraint, deadlock=deadlock)
     cmd = _tlc_cmd(workers or min(NCPU, 8), os.path.join(d, "meta"), cfg, module + ".tla", extra_args)
     t0 = time.time()
     p = subprocess.Popen(cmd, cwd=d, env=tlc_env(heap), stdout=subprocess.PIPE, stderr=subprocess.STDOUT, text=True)
@@ -246,17 +246,24 @@ def shard(xs, n):
 
 
 def index_runs(tracefile):
-    """line number (1-based) -> run index (0-based within this trace file), and run -> lines."""
+    """List of runs (one per reset event): each a list of (line number, text); runs[i].run = scenario number (1-based)
+    as reported by the harness (a scenario may be run more than once)."""
     runs = []
     cur = None
     with open(tracefile) as f:
         for i, line in enumerate(f, 1):
             if '"ev":"reset"' in line:
-                cur = []
+                cur = RunLines()
+                m = re.search(r'"run":(\d+)', line)
+                cur.run = int(m.group(1)) if m else len(runs) + 1
                 runs.append(cur)
             if cur is not None:
                 cur.append((i, line))
     return runs
+
+
+class RunLines(list):
+    run = 0
 
 
 def run_of_line(runs, lineno):
@@ -349,7 +356,7 @@ def scen_key(s):
 
 
 def run_family(ctx, family, scenarios, harness_mode, harness_args, trace_module, trace_consts,
-               shard_size=4000, tags="verif", kf_of=None):
+               shard_size=4000, tags="verif", kf_of=None, on_trace=None):
     """scenarios -> harness -> traces -> TLC trace spec; violations appended to ctx.viol."""
     if not scenarios:
         return
@@ -361,12 +368,46 @@ def run_family(ctx, family, scenarios, harness_mode, harness_args, trace_module,
     def do(i):
         tf = os.path.join(d, "t%04d.ndjson" % i)
         p = run_harness(ctx, binp, harness_mode, harness_args, shards[i], tf)
-        if p.returncode != 0:
+        skip = 0
+        restarts = 0
+        while p.returncode in (2, 3) and harness_mode in ("container", "conc"):
+            restarts += 1
+            if restarts > 3:
+                ctx.notes.append("%s shard %d: more than 3 crashed/hung scenarios, rest of the shard not run" % (family, i))
+                p.returncode = 0
+                break
+            # the harness process died (2: Go runtime crash, e.g. a panic outside any call or a fatal error;
+            # 3: goroutines hung and the run was aborted): the scenario that was running is marked, the rest
+            # of the shard is run by a fresh process
+            last = 0
+            with open(tf) as f:
+                for line in f:
+                    if '"ev":"reset"' in line:
+                        m = re.search(r'"run":(\d+)', line)
+                        if m:
+                            last = int(m.group(1))
+            if last <= skip:
+                raise Inconclusive("harness died without progress rc=%d: %s" % (p.returncode, p.stderr[-2000:]))
+            with open(tf, "a") as f:
+                if p.returncode == 2:
+                    f.write(json.dumps({"ev": "fatal", "th": "main", "rc": 2, "msg": p.stderr[:700] + " ... " + p.stderr[-300:]}) + "\n")
+            skip = last
+            if skip >= len(shards[i]):
+                break
+            tf2 = tf + ".part"
+            p = run_harness(ctx, binp, harness_mode, list(harness_args) + ["-skip", str(skip)], shards[i], tf2)
+            with open(tf, "a") as f, open(tf2) as g:
+                shutil.copyfileobj(g, f)
+            os.remove(tf2)
+        if p.returncode != 0 and not (p.returncode in (2, 3) and harness_mode in ("container", "conc")):
             raise Inconclusive("harness failed rc=%d: %s" % (p.returncode, p.stderr[-2000:]))
         return tf
 
     with cf.ThreadPoolExecutor(max_workers=NCPU) as ex:
         traces = list(ex.map(do, range(len(shards))))
+    if on_trace:
+        for tf in traces:
+            on_trace(tf)
     results = validate_traces(ctx, trace_module, family, trace_consts, traces)
     for si, (tf, res) in enumerate(results):
         ctx.events += res["lines"]
@@ -377,7 +418,8 @@ def run_family(ctx, family, scenarios, harness_mode, harness_args, trace_module,
                 tag, guard, line = v[0], v[1], v[2]
                 kf = v[3] if len(v) > 3 else "-"
                 ri = run_of_line(runs, line)
-                scen = shards[si][ri] if ri is not None and ri < len(shards[si]) else None
+                sidx = runs[ri].run - 1 if ri is not None else None
+                scen = shards[si][sidx] if sidx is not None and 0 <= sidx < len(shards[si]) else None
                 evline = None
                 if ri is not None:
                     for (ln, txt) in runs[ri]:
